@@ -63,6 +63,10 @@ type TermStore struct {
 	vars  []*Term          // declared variables in creation order
 	ufs   map[string]*ufDecl
 	ufOrd []string
+	// in-range side conditions of the float->int conversions built so far (used to prefer
+	// counterexamples whose conversions are specified, hence replayable natively)
+	rangeCons []*Term
+	concrete  bool // concrete re-execution: unspecified conversions take the amd64 results
 }
 
 type ufDecl struct {
@@ -545,10 +549,38 @@ func (ts *TermStore) FPToInt(a *Term, signed bool, w int) *Term {
 			}
 		}
 	}
+	if a.IsConst && ts.concrete {
+		// out of range / NaN: what the amd64 code Go generates yields (best effort, replay only)
+		switch {
+		case signed && w == 64:
+			return ts.BV(64, 0x8000000000000000)
+		case signed && w == 32:
+			return ts.BV(32, 0x80000000)
+		default:
+			return ts.BV(w, 0)
+		}
+	}
+	if !a.IsConst {
+		var lo, hi float64
+		if signed {
+			lo, hi = -math.Ldexp(1, w-1), math.Ldexp(1, w-1)
+		} else {
+			lo, hi = -1, math.Ldexp(1, w)
+		}
+		c := ts.And(ts.Not(ts.FPIsNaN(a)), ts.And(ts.FPCmp("fp.lt", ts.FPConst(a.S.W, lo-boolf(signed)), a), ts.FPCmp("fp.lt", a, ts.FPConst(a.S.W, hi))))
+		ts.rangeCons = append(ts.rangeCons, c)
+	}
 	if signed {
 		return ts.mk("fp.to_sbv", Sort{SBV, w}, [2]int{w, 0}, "", 0, false, a)
 	}
 	return ts.mk("fp.to_ubv", Sort{SBV, w}, [2]int{w, 0}, "", 0, false, a)
+}
+
+func boolf(b bool) float64 {
+	if b {
+		return 1
+	}
+	return 0
 }
 
 // UF applies an uninterpreted function (declared on first use).
